@@ -61,6 +61,7 @@ def _strategy(draw):
     if surge_mode:
         case = draw(
             gen.election_case(
+                thresholds=(100, 100, 90, 75, 50),  # a unit 'below the threshold' needs a threshold above 0
                 estimators=("bootstrap",),
                 min_nonrep=4,
                 slack=(0, 10),
@@ -77,8 +78,26 @@ def _strategy(draw):
         if ids:
             case["perturb"] = {"kind": "below_threshold", "id": ids[draw(st.integers(0, len(ids) - 1))], "repl": "x40"}
             return case
+    # an eighth of the remaining pairs: a larger multi-state gaussian election (groups with their own calibration model
+    # next to groups that fall back), perturbed unit below the threshold jumping x40 so that a misplaced floor would bind
+    if not state_mode and not surge_mode and draw(st.integers(0, 7)) == 0:
+        case = draw(
+            gen.election_case(
+                thresholds=(100, 100, 90, 75, 50),  # a unit 'below the threshold' needs a threshold above 0
+                estimators=("gaussian",), min_nonrep=6, slack=(25, 80), max_other=24, min_states=2, max_counties=3, outliers=(False,), allow_fe=False,
+                statuses=(gen.N, gen.N, gen.N, gen.N0, gen.A, gen.B, gen.Z),
+            )
+        )
+        case["req"]["mp"].pop("winsorize", None)
+        if "unit" not in case["req"]["aggregates"]:
+            case["req"]["aggregates"] = case["req"]["aggregates"] + ["unit"]
+        ids = [u["id"] for u in case["units"] if u["status"] == gen.N and u["feed"] is not None and u["feed"]["rd"] + u["feed"]["rg"] > 0]
+        if ids:
+            case["perturb"] = {"kind": "below_threshold", "id": ids[draw(st.integers(0, len(ids) - 1))], "repl": "x40"}
+            return case
     case = draw(
         gen.election_case(
+                thresholds=(100, 100, 90, 75, 50),  # a unit 'below the threshold' needs a threshold above 0
             min_nonrep=2,
             slack=(12, 22) if big else (0, 8),
             outliers=(True,) if big else (False,),
@@ -257,6 +276,7 @@ def _hist_strategy(draw):
     st = gen.st
     case = draw(
         gen.election_case(
+                thresholds=(100, 100, 90, 75, 50),  # a unit 'below the threshold' needs a threshold above 0
             estimators=("nonparametric", "gaussian"),
             offices=("G",),
             allow_extra=False,
